@@ -81,10 +81,13 @@ class Gen:
                 ln = r.choice([0, 1, 2, 3, 7, 16, 40]) if r.random() < 0.8 else r.randrange(0, 80)
         elif t in SIZES:
             sz = SIZES[t]
-            if r.random() < 0.8:
+            k = r.random()
+            if k < 0.75:
                 ln = sz
-            else:
+            elif k < 0.9:
                 ln = r.randrange(1, sz + 1)        # reduced-size encoding: raw octets
+            else:
+                ln = sz + r.choice([1, 2, 2, 6, 10])   # longer than the type (e.g. an EUI-64 in a macAddress): legal for a template to say
         else:                                       # RFC 6313 list types: untyped, raw octets
             ln = r.choice([1, 4, 9, 20])
         return {"e": eid, "l": ln, "pen": pen, "t": t}
@@ -142,7 +145,7 @@ class Gen:
             return ([255] + u16(len(o)) if longform else [len(o)]) + o
         n = f["l"]
         if f["t"] == "boolean":
-            return [r.choice([1, 2])][:n]
+            return ([r.choice([1, 2])] + [r.randrange(256) for _ in range(n)])[:n]
         if f["t"] == "string" and r.random() < 0.4 and n >= 3:
             h = list(r.choice(HOSTILE))
             return (h + [r.randrange(32, 127) for _ in range(n)])[:n]
